@@ -148,6 +148,25 @@ def battery(case, rec):
                     return file_sha(p)
                 rec(f'export|{lx.specifier()}|{v}', exp)
     rec('describe', lambda: w.describe())
+    for lx in wn.lexicons():
+        k = lx.specifier()
+        rec(f'lexicon|{k}', lambda lx=lx: [lx.describe(), lx.requires(), lx.extends(), lx.extensions(),
+                                           lx.metadata(), lx.modified()])
+    rec('ilis', lambda: [[i.id, i.status, i.definition(), i.metadata()] for i in wn.ilis()])
+    rec('ilis.presupposed', lambda: [[i.id, i.definition()] for i in w.ilis(status='presupposed')])
+    rec('ilis.proposed', lambda: [[i.id, i.definition()] for i in wn.ilis(status='proposed')])
+    for y in syn:
+        k = f'{y.lexicon().specifier()}/{y.id}'
+        rec(f'relation_paths|{k}', lambda y=y: list(y.relation_paths('hypernym', 'also', 'similar')))
+        rec(f'translate|{k}', lambda y=y: y.translate())
+        rec(f'lookup|{k}', lambda y=y: [w.synset(y.id), wn.synsets(lexicon=scope, pos=y.pos)])
+    for s_ in w.senses():
+        k = f'{s_.lexicon().specifier()}/{s_.id}'
+        rec(f'sense2|{k}', lambda s_=s_: [list(s_.closure('antonym', 'also', 'derivation')), s_.translate(),
+                                          w.sense(s_.id)])
+    for k, f in enumerate(case['_files']):
+        rec(f'scan|{k}', lambda f=f: lmf.scan_lexicons(f))
+    rec('projects', lambda: [[p['id'], p['version'], p['resource_urls']] for p in wn.projects()][:40])
 
 
 def handle(job):
